@@ -260,7 +260,7 @@ func OnIRIs(it Item, fn WithIRIsFn) error {
 // objects. It basically wraps functionality for the different collection types
 // supported by the package.
 func OnCollectionIntf(it Item, fn WithCollectionInterfaceFn) error {
-	if it == nil {
+	if IsNil(it) {
 		return nil
 	}
 	switch it.GetType() {
